@@ -92,9 +92,10 @@ class Obligation:
     kind: str               # contract | invariant_only | external | lemma
     props: List[str]
     clause: str = ''
-    line: int = 0           # line in the *module text* where the fn signature starts (0-based)
+    start_off: int = 0      # offsets in the dump text (fn item start .. body close)
+    end_off: int = 0
+    start_line: int = 0     # 0-based line range in the annotated module text
     end_line: int = 0
-    verus_name_hint: str = ''
 
 
 @dataclass
@@ -107,6 +108,7 @@ class Annotated:
     uncontracted: List[str]
     rejected: bool = False
     reject_text: str = ''
+    spec_start_line: int = 0
 
 
 EXTERNAL_ATTR = '#[verifier::external]\n'
@@ -144,7 +146,7 @@ class Annotator:
 
     def _obl(self, fn_label, kind, props, clause, fn: Optional[Fn]):
         self.obls.append(Obligation(decl=self.d.id, fn=fn_label, kind=kind, props=props, clause=clause,
-                                    line=fn.sig_start if fn else 0, end_line=fn.body_close if fn else 0))
+                                    start_off=fn.start if fn else 0, end_off=fn.body_close if fn else 0))
 
     # ---------------------------------------------------------------- main
     def run(self) -> Annotated:
@@ -191,7 +193,18 @@ class Annotator:
         text = ''.join(out)
         # erasure self-check
         self._erasure_check(text, ins)
-        return Annotated(d, text, [(o, t) for o, _, t in ins], self.obls, self.external, self.uncontracted)
+        # line ranges of the contracted functions in the annotated text
+        def new_off(o, inclusive):
+            return o + sum(len(t) for off, _, t in ins if (off <= o if inclusive else off < o))
+        for ob in self.obls:
+            a = new_off(ob.start_off, False)
+            b = new_off(ob.end_off, True)
+            ob.start_line = text.count('\n', 0, a)
+            ob.end_line = text.count('\n', 0, b)
+        self.spec_start_line = text.count('\n', 0, new_off(mod.end - 1, False))
+        ann = Annotated(d, text, [(o, t) for o, _, t in ins], self.obls, self.external, self.uncontracted)
+        ann.spec_start_line = self.spec_start_line
+        return ann
 
     def _erasure_check(self, text, ins):
         # walk the annotated text, skipping recorded insertions in order, and compare with the dump
